@@ -89,11 +89,28 @@ def b01 (b : Bool) : String := if b then "1" else "0"
 def showMeta (m : Meta) : String :=
   s!"{showTs m.created},{showTs m.modified},{showTs m.expires},{showTs m.deleted},{b01 m.secret},{b01 m.crown}"
 
+/-- An `int64` token (`strconv.ParseInt(v, 10, 64)` on the other side). -/
+def parseInt64 (s : String) : Option Int :=
+  match s.toInt? with
+  | some i => if -9223372036854775808 ≤ i ∧ i ≤ 9223372036854775807 then some i else none
+  | none => none
+
+/-- A float token: thousandths, any number of digits. Integral values of any magnitude below 10^21 (where
+    encoding/json switches to exponent notation); fractional values only below 10^12 (see the number model in
+    `PB.Model.Db`) — everything else is refused (`bad-op`). The value the Go side holds is the nearest float64. -/
+def parseMilli (s : String) : Option Int :=
+  match s.toInt? with
+  | some m =>
+    if m.natAbs ≥ 1000000000000000000000000 then none
+    else if m % 1000 ≠ 0 ∧ m.natAbs ≥ 1000000000000000 then none
+    else some (f64m m)
+  | none => none
+
 def parsePrim (s : String) : Option Prim :=
   match s.toList with
   | 's' :: ':' :: rest => some (.str (String.ofList rest))
-  | 'i' :: ':' :: rest => (String.ofList rest).toInt?.map Prim.int
-  | 'f' :: ':' :: rest => (String.ofList rest).toInt?.map Prim.flt
+  | 'i' :: ':' :: rest => (parseInt64 (String.ofList rest)).map Prim.int
+  | 'f' :: ':' :: rest => (parseMilli (String.ofList rest)).map Prim.flt
   | 'b' :: ':' :: rest => (parseBool (String.ofList rest)).map Prim.bool
   | _ => none
 
@@ -186,11 +203,11 @@ def parseLeaf (op arg : String) : Option Leaf :=
   match op with
   | "eq" | "gt" | "ge" | "lt" | "le" => do
     let c ← parseCmp op
-    let v ← arg.toInt?
+    let v ← parseInt64 arg
     pure (.intCmp c v)
   | "feq" | "fgt" | "fge" | "flt" | "fle" => do
     let c ← parseCmp (String.ofList (op.toList.drop 1))
-    let v ← arg.toInt?
+    let v ← parseMilli arg
     pure (.fltCmp c v)
   | "sa" => some (.strOp .sameAs arg)
   | "co" => some (.strOp .contains arg)
@@ -518,7 +535,7 @@ def handleToks (s : Sys) (toks : List String) : Sys × String :=
     -- handleInsert: Get, accessor Set (JSON numbers arrive as float64), Put
     (match s.iface "@api", parsePrim p with
      | some i, some pv =>
-       let pv := match pv with | .int n => Prim.flt (n * 1000) | x => x
+       let pv := match pv with | .int n => Prim.flt (f64m (n * 1000)) | x => x
        (match (getRecord s.cfg i.opts { store := s.store } k s.now).1 with
         | .error e => (s, errStr e)
         | .ok r =>
